@@ -301,8 +301,8 @@ theorem stop_mono_runJoiner (perm : List Nat) : ∀ (fuel : Nat) (g : G), g.fixe
 /-- **the loop is not left early** (no competing consumer): a joiner that is in the `next_done`
 loop of a waiting policy while some member is pending is still in the loop when its algorithm
 comes to rest - unless a member it popped meanwhile met the stop condition -/
-theorem stay_in_loop (perm : List Nat) : ∀ (fuel : Nat) (g : G), g.fixed = true → TInv g.core →
-    LInv g → PInv g → NInv g → JInv g →
+theorem stay_in_loop {s : Bool} (perm : List Nat) : ∀ (fuel : Nat) (g : G), g.fixed = true →
+    TInv g.core → LInv g → PInv g → NInv s g → JInv g →
     ∀ j, g.joiner = some j → j.phase = .next → g.wait ≠ .nowait → g.pending ≠ [] →
     (g.runJoiner perm fuel).1.stopPopped = false →
     ∃ j', (g.runJoiner perm fuel).1.joiner = some j' ∧ j'.phase = .next
